@@ -186,6 +186,84 @@ func runC02(c *Ctx) {
 		}
 	}
 
+	// ---- which functions change the shape or the heights below their receiver (directly or through a callee)
+	mutates := map[*FuncInfo]bool{}
+	for changed := true; changed; {
+		changed = false
+		for _, fi := range nodeFuncs {
+			if mutates[fi] {
+				continue
+			}
+			for _, p := range paths[fi] {
+				for i := range p.Events {
+					e := &p.Events[i]
+					if e.Kind == "store" && (isChildAddr(e.Addr) || isFieldAddr(e.Addr, a.nHeight, nil)) {
+						mutates[fi] = true
+					}
+					if e.Kind == "call" {
+						if cal := c.P.BySSA[e.SSAFn]; cal != nil && mutates[cal] {
+							mutates[fi] = true
+						}
+					}
+				}
+			}
+			if mutates[fi] {
+				changed = true
+			}
+		}
+	}
+
+	// reportsChange: a function with a boolean result that is the constant true on every path that may change anything
+	// (by induction over the call depth: a recursive call whose flag is false on the path has changed nothing). A call of
+	// such a function whose flag is known false on a path is not a modification.
+	reportsChange := map[*FuncInfo]int{}
+	flagFalse := func(p *Path, e *Event, k int) bool {
+		if e.Res == nil {
+			return false
+		}
+		fk := (&Term{Op: "extract", Args: []*Term{e.Res}, N: k}).Key()
+		for _, cd := range p.Conds {
+			t, pol := stripNot(cd.T, cd.Pol)
+			if t.Key() == fk && !pol {
+				return true
+			}
+		}
+		return false
+	}
+	for _, fi := range nodeFuncs {
+		if !mutates[fi] {
+			continue
+		}
+		res := fi.SSA.Signature.Results()
+		for k := 0; k < res.Len(); k++ {
+			if b, isB := res.At(k).Type().Underlying().(*types.Basic); !isB || b.Kind() != types.Bool {
+				continue
+			}
+			all := true
+			for _, p := range paths[fi] {
+				mut := false
+				for i := range p.Events {
+					e := &p.Events[i]
+					if e.Kind == "store" && (isChildAddr(e.Addr) || isFieldAddr(e.Addr, a.nHeight, nil)) {
+						mut = true
+					}
+					if e.Kind == "call" {
+						if cal := c.P.BySSA[e.SSAFn]; cal != nil && mutates[cal] && !(cal == fi && flagFalse(p, e, k)) {
+							mut = true
+						}
+					}
+				}
+				if mut && !(p.End == EndReturn && k < len(p.Rets) && p.Rets[k].IsConst("true")) {
+					all = false
+				}
+			}
+			if all {
+				reportsChange[fi] = k
+				break
+			}
+		}
+	}
+
 	// ---- height-refresh & rebalance-on-return
 	type res struct {
 		ok  bool
@@ -206,6 +284,17 @@ func runC02(c *Ctx) {
 					X := e.Addr.Args[0]
 					lastChildStore[X.Key()] = i
 					nodes[X.Key()] = X
+				}
+				// a shape-changing function called on X's child changes X's subtree in place, whether or not the child
+				// pointer is stored back: it counts as a modification of X at this point
+				if e.Kind == "call" && len(e.Args) > 0 && e.Args[0].Op == "load" && isChildAddr(e.Args[0].Args[0]) {
+					cal := c.P.BySSA[e.SSAFn]
+					k, reports := reportsChange[cal]
+					if cal != nil && mutates[cal] && !(reports && flagFalse(p, e, k)) {
+						X := e.Args[0].Args[0].Args[0]
+						lastChildStore[X.Key()] = i
+						nodes[X.Key()] = X
+					}
 				}
 			}
 			for key, X := range nodes {
@@ -269,7 +358,11 @@ func runC02(c *Ctx) {
 					}
 					if !refreshed {
 						r.ok = false
-						r.why = fmt.Sprintf("after its %s child is stored, node %s %s without its height having been recomputed (path: %s)", a.childField(p.Events[last].Addr), nodeLabel(X), esc.what, p.CondString())
+						if p.Events[last].Kind == "call" {
+							r.why = fmt.Sprintf("after %s changed its subtree in place, node %s %s without its height having been recomputed (path: %s)", p.Events[last].Name, nodeLabel(X), esc.what, p.CondString())
+						} else {
+							r.why = fmt.Sprintf("after its %s child is stored, node %s %s without its height having been recomputed (path: %s)", a.childField(p.Events[last].Addr), nodeLabel(X), esc.what, p.CondString())
+						}
 					}
 				}
 			}
